@@ -89,7 +89,7 @@ func pathString(p []any) string {
 
 // ---- targets ----
 
-const numMTargets = 12
+const numMTargets = 14
 
 func mTarget(k int) (jp.Expr, []vref.PFrag, string) {
 	ix := func() int { return vx.IntIn("i", 0, 4) }
@@ -121,6 +121,12 @@ func mTarget(k int) (jp.Expr, []vref.PFrag, string) {
 	case 10:
 		i := vx.IntIn("neg", -4, -1)
 		return jp.R().C("a").N(i), []vref.PFrag{{Kind: vref.FChild, Key: "a"}, {Kind: vref.FNth, N: i}}, "$.a[-i]"
+	case 12:
+		i, j := ix(), ix()
+		return jp.R().U("a", "b").U(i, j), []vref.PFrag{{Kind: vref.FUnion, Union: []any{"a", "b"}}, {Kind: vref.FUnion, Union: []any{i, j}}}, "$['a','b'][i,j]"
+	case 13:
+		i, j := ix(), ix()
+		return jp.R().U(i, j).U("k", "x"), []vref.PFrag{{Kind: vref.FUnion, Union: []any{i, j}}, {Kind: vref.FUnion, Union: []any{"k", "x"}}}, "$[i,j]['k','x']"
 	case 11:
 		c := int64(vx.IntIn("fc", 0, 9))
 		pred := func(v any) bool {
